@@ -29,7 +29,6 @@ from ._exceptions import UnboundSignal
 from ._utils import qualified_name
 
 T_Event = TypeVar("T_Event", bound="Event")
-bound_signals = WeakKeyDictionary[Hashable, "Signal[Any]"]()
 
 
 class SignalQueueFull(UserWarning):
@@ -91,19 +90,23 @@ class Signal(Generic[T_Event]):
     _instance: ReferenceType[Hashable] = field(init=False)
     _topic: str = field(init=False)
     _send_streams: list[MemoryObjectSendStream[T_Event]] = field(init=False)
+    # Bound signals of this declaration, one per owner instance
+    _bound_signals: WeakKeyDictionary[Hashable, Signal[T_Event]] = field(
+        init=False, default_factory=WeakKeyDictionary, repr=False, compare=False
+    )
 
     def __get__(self, instance: Hashable, owner: Any) -> Signal[T_Event]:
         if instance is None:
             return self
 
         try:
-            return bound_signals[instance]
+            return self._bound_signals[instance]
         except KeyError:
             bound_signal = Signal(self.event_class)
             bound_signal._topic = self._topic
             bound_signal._instance = weakref.ref(instance)
             bound_signal._send_streams = []
-            bound_signals[instance] = bound_signal
+            self._bound_signals[instance] = bound_signal
             return bound_signal
 
     def __set_name__(self, owner: Any, name: str) -> None:
